@@ -72,7 +72,10 @@ package scorch
 // position of an iterator in its reader (makes the iterators of one reader pairwise distinct)
 //@ uf itPos(it segment.PostingsIterator) int
 
-//@ spec tfrShape(i *IndexSnapshotTermFieldReader) bool = i.snapshot != nil && offsetsOK(i.snapshot) && len(i.iterators) == len(i.snapshot.offsets) && len(i.iterators) == len(i.snapshot.segment) && \
+// segments do not overlap: a segment's doc numbers end before any later segment starts (opaque:
+// only Advance, which may move the cursor over several segments at once, needs the pairwise form)
+//@ spec opaque segsOK(i *IndexSnapshotTermFieldReader) bool = forall(p, 0, len(i.iterators), forall(q, p+1, len(i.iterators), i.snapshot.offsets[p] + segCount(i.iterators[p]) <= i.snapshot.offsets[q]))
+//@ spec tfrShape(i *IndexSnapshotTermFieldReader) bool = i.snapshot != nil && offsetsOK(i.snapshot) && segsOK(i) &&len(i.iterators) == len(i.snapshot.offsets) && len(i.iterators) == len(i.snapshot.segment) && \
 //@     0 <= i.segmentOffset && i.segmentOffset <= len(i.iterators) && forall(k, 0, len(i.iterators), i.iterators[k] != nil && itPos(i.iterators[k]) == k) && \
 //@     forall(k, 0, len(i.iterators), i.snapshot.offsets[k] < 4611686018427387904 && segCount(i.iterators[k]) < 4611686018427387904) && \
 //@     forall(k, 0, len(i.iterators)-1, i.snapshot.offsets[k] + segCount(i.iterators[k]) <= i.snapshot.offsets[k+1])
@@ -127,7 +130,7 @@ package scorch
 //@   props C08
 //@   mode int
 //@   prune
-//@   reveal offsetsOK
+//@   reveal offsetsOK segsOK
 //@   requires i != nil && tfrShape(i) && tfrCursor(i) && !i.updateBytesRead && !i.includeFreq && !i.includeNorm && !i.includeTermVectors
 //@   requires implies(i.gstarted, idNum(ID) > i.glast)
 //@   modifies i.segmentOffset, i.currID, i.currPosting, i.gstarted, i.glast, i.gseg, segment.PostingsIterator.pstarted, segment.PostingsIterator.plast, segment.PostingsIterator.pdone, segment.Posting.pnum, fields(index.TermFieldDoc), mem(byte)
